@@ -19,8 +19,10 @@
 (*      layout is a function from the layout dimensions (Fields) to the    *)
 (*      chosen alternative; Default is the canonical one-line form.        *)
 (*  (2) the reference reading of a text (Parse): comments end at the line  *)
-(*      end, a line end followed by ':' continues the line, line ends are  *)
-(*      blanks, blanks separate; '|' '<' '>' separate steps, '<' / '>'     *)
+(*      end, a line whose first character after optional indentation is   *)
+(*      ':' continues the previous line (Rumination 009: pipelines are     *)
+(*      free format, lines are trimmed), line ends are blanks,             *)
+(*      blanks separate; '|' '<' '>' separate steps, '<' / '>'             *)
 (*      mark the following step omit_fwd / omit_inv, empty steps vanish;   *)
 (*      in a step the modifiers may stand anywhere, bare or as =true, the  *)
 (*      first other bare word is the name, the rest are key=value pairs    *)
@@ -61,7 +63,7 @@ SxOneStepPipeline(def) == Len(def) = 1 /\ (def[1].of \/ def[1].oi)
 (***************************************************************************)
 (* Layout                                                                  *)
 (***************************************************************************)
-Fields == {"bar", "eq", "com", "col", "dol", "lines", "eol", "cont", "cpos", "ctext",
+Fields == {"bar", "eq", "com", "col", "dol", "gap", "lines", "eol", "cont", "cpos", "ctext",
            "empty", "mods", "sugar", "sub", "outer"}
 
 Default == [f \in Fields |->
@@ -70,6 +72,7 @@ Default == [f \in Fields |->
       [] f = "com"   -> "no"       \* ","
       [] f = "col"   -> "no"       \* ":" of a macro name
       [] f = "dol"   -> "no"       \* "$name"
+      [] f = "gap"   -> "sp"       \* one blank between the elements of a step
       [] f = "lines" -> "one"      \* everything on one line
       [] f = "eol"   -> "lf"
       [] f = "cont"  -> "none"     \* no continuation lines
@@ -87,9 +90,11 @@ Alts(f) ==
       [] f = "com"   -> {"both", "right", "left"}
       [] f = "col"   -> {"both", "right", "left"}
       [] f = "dol"   -> {"sp"}                                      \* "$ name"
+      [] f = "gap"   -> {"tab", "wide"}                             \* a TAB / two blanks between the elements of a step
       [] f = "lines" -> {"lead", "leadind", "trail"}                \* delimiter starts the line (indented or not) / ends it
       [] f = "eol"   -> {"cr", "crlf"}
-      [] f = "cont"  -> {"sp", "nosp"}                              \* arguments on a continuation line ":   args" / ":args"
+      [] f = "cont"  -> {"sp", "nosp", "ind", "indtab"}             \* arguments on a continuation line ":   args" / ":args" /
+                                                                    \* the colon indented: "  :   args" / TAB ":args"
       [] f = "cpos"  -> {"top", "mid", "end", "trail1", "traillast"}\* own line: before / after step 1 / at the end; trailing a line
       [] f = "ctext" -> {"2", "3"}                                  \* what the comment says
       [] f = "empty" -> {"lead", "trail", "dbl", "dblsp"}           \* "| a"  "a |"  "a || b"  "a | | b"
@@ -123,6 +128,7 @@ Applicable(def, lay) ==
        /\ "com" \in D   => \E a \in A : a.v.f = "list"
        /\ "col" \in D   => \E i \in 1..n : IsMacroName(def[i].name)
        /\ "dol" \in D   => \E a \in A : a.v.f \in {"ref", "refd"}
+       /\ "gap" \in D   => \E i \in 1..n : Rest(def[i]) \/ HasMod(def[i], lay)
        /\ "lines" \in D => n >= 2
        /\ "eol" \in D   => HasEol(def, lay)
        /\ "cont" \in D  => \E i \in 1..n : Rest(def[i])
@@ -150,6 +156,12 @@ RECURSIVE Spaced(_)
 Spaced(ss) == IF Len(ss) = 0 THEN <<>>
               ELSE IF Head(ss) = <<>> THEN Spaced(Tail(ss))
               ELSE LET r == Spaced(Tail(ss)) IN IF r = <<>> THEN Head(ss) ELSE Head(ss) \o <<" ">> \o r
+\* the same with the gap of the layout
+RECURSIVE SpacedBy(_, _)
+SpacedBy(ss, b) == IF Len(ss) = 0 THEN <<>>
+                   ELSE IF Head(ss) = <<>> THEN SpacedBy(Tail(ss), b)
+                   ELSE LET r == SpacedBy(Tail(ss), b) IN IF r = <<>> THEN Head(ss) ELSE Head(ss) \o <<b>> \o r
+Gap(lay) == CASE lay["gap"] = "sp" -> " " [] lay["gap"] = "tab" -> "\t" [] lay["gap"] = "wide" -> "  "
 
 Around(tok, style) == (IF style \in {"both", "left"} THEN <<" ">> ELSE <<>>) \o <<tok>>
                       \o (IF style \in {"both", "right"} THEN <<" ">> ELSE <<>>)
@@ -193,9 +205,9 @@ ModLex(m, lay) == IF lay["mods"] \in {"suffix_eq", "mid_eq"} THEN <<m>> \o Aroun
 
 \* the modifiers of step s that are written as words (sug: the omission is in the separator)
 ModsLex(s, lay, sug) ==
-    Spaced(<< IF s.inv THEN ModLex("inv", lay) ELSE <<>>,
-              IF s.of /\ ~sug THEN ModLex("omit_fwd", lay) ELSE <<>>,
-              IF s.oi /\ ~sug THEN ModLex("omit_inv", lay) ELSE <<>> >>)
+    SpacedBy(<< IF s.inv THEN ModLex("inv", lay) ELSE <<>>,
+                IF s.of /\ ~sug THEN ModLex("omit_fwd", lay) ELSE <<>>,
+                IF s.oi /\ ~sug THEN ModLex("omit_inv", lay) ELSE <<>> >>, Gap(lay))
 
 \* one step: <<what stands on the first line, what may go to a continuation line>>
 StepParts(s, lay, sug) ==
@@ -203,20 +215,25 @@ StepParts(s, lay, sug) ==
         ar == [j \in 1..Len(s.args) |-> ArgLex(s.args[j], lay)]
         md == ModsLex(s, lay, sug)
         st == lay["mods"]
-    IN CASE st \in {"suffix", "suffix_eq"} -> <<nm, Spaced(ar \o <<md>>)>>
-         [] st = "prefix"                  -> <<Spaced(<<md, nm>>), Spaced(ar)>>
-         [] st \in {"mid", "mid_eq"}       -> <<nm, Spaced(<<md>> \o ar)>>
+        g == Gap(lay)
+    IN CASE st \in {"suffix", "suffix_eq"} -> <<nm, SpacedBy(ar \o <<md>>, g)>>
+         [] st = "prefix"                  -> <<SpacedBy(<<md, nm>>, g), SpacedBy(ar, g)>>
+         [] st \in {"mid", "mid_eq"}       -> <<nm, SpacedBy(<<md>> \o ar, g)>>
          [] st = "between"                 -> IF Len(ar) = 0 THEN <<nm, md>>
-                                              ELSE <<nm, Spaced(<<ar[1], md>> \o Tail(ar))>>
+                                              ELSE <<nm, SpacedBy(<<ar[1], md>> \o Tail(ar), g)>>
 
 StepLex(s, lay, sug) ==
     LET p == StepParts(s, lay, sug) IN
-    IF lay["cont"] = "none" \/ p[2] = <<>> THEN Spaced(p)
-    ELSE p[1] \o <<Eol(lay), ":">> \o (IF lay["cont"] = "sp" THEN <<"   ">> ELSE <<>>) \o p[2]
+    IF lay["cont"] = "none" \/ p[2] = <<>> THEN SpacedBy(p, Gap(lay))
+    ELSE p[1] \o <<Eol(lay)>>
+         \o (CASE lay["cont"] = "ind" -> <<"  ">> [] lay["cont"] = "indtab" -> <<"\t">> [] OTHER -> <<>>)
+         \o <<":">> \o (IF lay["cont"] \in {"sp", "ind"} THEN <<"   ">> ELSE <<>>) \o p[2]
 
 CommentLex(lay) == CASE lay["ctext"] = "1" -> <<"#", " ", "c">>
                      [] lay["ctext"] = "2" -> <<"#", " ", "|", " ", "noop">>           \* a commented-out step
                      [] lay["ctext"] = "3" -> <<"#", "k", "=", "1", " ", ">", " ", "x">>
+                     \* (not among Alts: chosen by module ProjSyntax, whose subject is the word "proj")
+                     [] lay["ctext"] = "p" -> <<"#", " ", "reprojected">>
 
 Render(def, lay) ==
     LET n == Len(def)
@@ -271,12 +288,13 @@ StripComments(lex, inC) ==
          ELSE IF h = "#" THEN StripComments(Tail(lex), TRUE)
          ELSE <<h>> \o StripComments(Tail(lex), FALSE)
 
-\* 2. a line end followed by ':' continues the line; any line end is a blank
+\* 2. a line that starts with ':', indented or not, continues the previous one; any line end is a blank
 RECURSIVE JoinLines(_)
 JoinLines(lex) ==
     IF Len(lex) = 0 THEN <<>>
     ELSE IF IsEol(lex[1])
          THEN IF Len(lex) >= 2 /\ lex[2] = ":" THEN <<" ">> \o JoinLines(SubSeq(lex, 3, Len(lex)))
+              ELSE IF Len(lex) >= 3 /\ IsBlank(lex[2]) /\ lex[3] = ":" THEN <<" ">> \o JoinLines(SubSeq(lex, 4, Len(lex)))
               ELSE <<" ">> \o JoinLines(Tail(lex))
          ELSE <<lex[1]>> \o JoinLines(Tail(lex))
 
@@ -402,7 +420,7 @@ LexSafe == LET lex == Render(Subject, lay) IN
 \* the lists of step texts must be literally identical; otherwise the steps
 \* must agree as parameter maps (modifiers move / are respelled).
 Lexical(l) == l["mods"] = "suffix" /\ l["sugar"] = "no"
-FieldOrder == <<"bar", "eq", "com", "col", "dol", "lines", "eol", "cont", "cpos", "ctext",
+FieldOrder == <<"bar", "eq", "com", "col", "dol", "gap", "lines", "eol", "cont", "cpos", "ctext",
                 "empty", "mods", "sugar", "sub", "outer">>
 ChoiceText(l) == LET s == SelectSeq(FieldOrder, LAMBDA f : l[f] # Default[f])
                  IN JoinStr([i \in 1..Len(s) |-> s[i] \o "=" \o l[s[i]]], ",")
